@@ -60,6 +60,37 @@ def cmpTris (tolPos tolAttr : Rat) : List (Tri Rat) → List (Tri Rat) → Optio
     | none => cmpTris tolPos tolAttr ms is
   | _, _ => some "different number of triangles"
 
+/-- Two triangulations of one clipped polygon agree as SETS of vertices (positions and attributes within the
+tolerances) and in their number of triangles: a fan started at another vertex of the same polygon — same polygon,
+same winding, other diagonals — is not a different result as far as the property goes (what the outputs cover,
+their winding and attributes are judged by the spec oracle on the implementation's own output). -/
+def sameVertexSets (tolPos tolAttr : Rat) (model impl : List (Tri Rat)) : Bool :=
+  let close (a b : ClipVert Rat) : Bool :=
+    ratAbs (a.pos.x - b.pos.x) + ratAbs (a.pos.y - b.pos.y) + ratAbs (a.pos.z - b.pos.z) + ratAbs (a.pos.w - b.pos.w) ≤ tolPos
+      && a.attr.length == b.attr.length
+      && (a.attr.zip b.attr).foldl (fun s (x, y) => s + ratAbs (x - y)) 0 ≤ tolAttr
+  let mv := model.flatMap triVerts
+  let iv := impl.flatMap triVerts
+  model.length == impl.length && iv.all (fun a => mv.any (close a)) && mv.all (fun a => iv.any (close · a))
+
+/-- Ordered comparison per input triangle; where it fails, the vertex-set comparison decides.
+Returns (disagreement, some group only agreed as vertex sets). -/
+def cmpGroups (tolPos tolAttr : Rat) : List (List (Tri Rat)) → List (List (Tri Rat)) → Option String × Bool
+  | [], [] => (none, false)
+  | m :: ms, i :: is =>
+    match cmpTris tolPos tolAttr m i with
+    | none => cmpGroups tolPos tolAttr ms is
+    | some msg =>
+      if sameVertexSets tolPos tolAttr m i then
+        let (r, _) := cmpGroups tolPos tolAttr ms is
+        (r, true)
+      else (some msg, false)
+  | _, _ => (some "different number of input groups", false)
+
+def splitBy {α : Type} : List Nat → List α → List (List α)
+  | [], _ => []
+  | c :: cs, xs => xs.take c :: splitBy cs (xs.drop c)
+
 structure TriSpec where
   key : Option (String × String) := none
 
@@ -198,7 +229,14 @@ def handleCore (case impl : List String) : Verdict :=
           | _ => false
         let v := if illScaled then v.addTag "ill-scaled" else v
         let v := if margin < 1/100000 || illScaled then { v with amb := true }
-          else match cmpTris (scale / 10000) (aScale / 1000) model implT with
+          else
+            -- per input triangle: the model's pieces against the implementation's (its own per-input counts)
+            let modelGroups := tris.map clipTri
+            let implGroups := if counts.length == n && counts.foldl (· + ·) 0 == implT.length then splitBy counts implT else [implT]
+            let (r, fanOnly) := if implGroups.length == modelGroups.length then cmpGroups (scale / 10000) (aScale / 1000) modelGroups implGroups
+                                else (cmpTris (scale / 10000) (aScale / 1000) model implT, false)
+            let v := if fanOnly then v.addTag "fan-differs" else v
+            match r with
             | some msg => v.withDiff true s!"{msg} (model {model.length} tris, impl {implT.length})"
             | none => v
         -- spec: batching independence, then per-input accounting
